@@ -920,10 +920,17 @@ func generate(f kit.Flags) [][]string {
 	sort.Strings(nodes)
 	sort.Strings(bads)
 	cases = append(cases, []string{"live boom none"})
+	// the tag-set copy every tag-writing node relies on, tied to the model function by function
+	for _, n := range []int{-1, 0, 1, 2, 7} {
+		for _, key := range []string{"k0", "t", "k6"} {
+			cases = append(cases, []string{fmt.Sprintf("tagscopy %d %s", n, key)})
+		}
+	}
 	k := 0
 	for _, n := range nodes {
 		for _, b := range bads {
-			if thorough || (k+int(f.Seed))%7 == 0 {
+			_, shape := liveBadTags[b]
+			if thorough || shape || (k+int(f.Seed))%7 == 0 {
 				cases = append(cases, []string{"live " + n + " " + b})
 			}
 			k++
